@@ -108,6 +108,9 @@ def run_sankey_case(spec, sl, excl_p, excl_f, split, replot=None):
     def fail(kind, what):
         return "fail", dict(case=case, tags=dict(kind=kind, plot="sankey"), what=f"sankey of {spec} slice {sl} exclude processes {excl_p} flows {excl_f} split {split}: {what}")
 
+    name_keys = any(len(str(k)) > 1 for k in sl)
+    if name_keys:  # a slice keyed by the dimension NAME: either refused, or applied like the letter
+        sl = {{"Time": "t", "Product": "p", "Quality": "q"}[k]: v for k, v in sl.items()}
     mfa = build_sankey_system(spec)
     names = list(mfa.flows)
     exf = [names[i] for i in excl_f if i < len(names)]
@@ -143,6 +146,9 @@ def run_sankey_case(spec, sl, excl_p, excl_f, split, replot=None):
             expected.append((src, tgt, sum(region.data.values()), n))
 
     def go_():
+        if name_keys:
+            pl = PlotlySankeyPlotter(mfa=mfa, slice_dict={NAMES[k]: v for k, v in slice_obj(sl).items()}, exclude_processes=exp, exclude_flows=exf, flow_color_dict=color)
+            return pl.plot()
         if replot is None:
             pl = PlotlySankeyPlotter(mfa=mfa, slice_dict=slice_obj(sl), exclude_processes=exp, exclude_flows=exf, flow_color_dict=color)
             return pl.plot()
@@ -162,6 +168,8 @@ def run_sankey_case(spec, sl, excl_p, excl_f, split, replot=None):
 
     st, fig = attempt(go_)
     if st == "raised":
+        if name_keys:
+            return "name-key-refused", None
         return fail("raised", f"raised {fig}")
     tr = fig.data[0]
     link = tr.link
@@ -208,7 +216,7 @@ def hash_idx(sel):
     return s
 
 
-SLICES = [{}, {"t": 2001}, {"p": "p2"}, {"q": "q1"}, {"t": 2000, "p": "p1"}, {"p": ["p2"]}, {"t": [2002, 2000]}, {"q": "q2", "t": 2002}]
+SLICES = [{}, {"Time": 2001}, {"t": 2001}, {"p": "p2"}, {"q": "q1"}, {"t": 2000, "p": "p1"}, {"p": ["p2"]}, {"t": [2002, 2000]}, {"q": "q2", "t": 2002}]
 SPLITS = [None, ("t", "name"), ("p", "letter"), ("p", "name"), ("q", "letter"), ("t", "letter")]
 
 
